@@ -538,7 +538,16 @@ def route_gates(ctx, fs):
                 else:
                     out.add('+?')
                 continue
-            out.add(('-' if neg else '+') + '%d' % g.minv[1])
+            # a gate that selects between two non-empty branches has no
+            # polarity of its own (if/else may be written either way round)
+            top = par if neg else g.node
+            up = getattr(top, '_parent', None)
+            both = isinstance(up, ast.If) and up.test is top and bool(
+                up.orelse) or isinstance(up, ast.IfExp) and up.test is top
+            if both:
+                out.add('~%d' % g.minv[1])
+            else:
+                out.add(('-' if neg else '+') + '%d' % g.minv[1])
     for f in fs:
         if f.version_window:
             lo, hi, st = f.version_window
@@ -756,6 +765,52 @@ def r145(ctx, R):
     R.count('R14.5', 1, 1)
 
 
+def r148(ctx, R):
+    """1.26: reserved may equal total.  The branch taken from 1.26 on
+    compares capacity with '<' and raises the ...ReservedCanBeTotal error,
+    the older branch uses '<=' (whichever way round the if/else is
+    written)."""
+    prog = ctx.prog
+    f = prog.func('placement.handlers.inventory:_validate_inventory_capacity')
+    G = ctx.gates
+    sel = []
+    for i in own_nodes(f.node):
+        if not isinstance(i, ast.If) or not i.orelse:
+            continue
+        t, neg = i.test, False
+        if isinstance(t, ast.UnaryOp) and isinstance(t.op, ast.Not):
+            t, neg = t.operand, True
+        g = G.gate_of(f, t)
+        if g is not None and g.minv == (1, 26):
+            new, old = (i.orelse, i.body) if neg else (i.body, i.orelse)
+            sel.append((new, old))
+
+    def binds(stmts):
+        out = {}
+        for st in stmts:
+            if isinstance(st, ast.Assign) and isinstance(
+                    st.targets[0], ast.Name):
+                out[st.targets[0].id] = prog.dotted(
+                    f.module, st.value, f) or src(st.value)
+        return out
+    ok = False
+    found = '%d selections on the 1.26 gate' % len(sel)
+    if len(sel) == 1:
+        nb, ob = binds(sel[0][0]), binds(sel[0][1])
+        found = 'from 1.26: %s; before: %s' % (sorted(nb.values()),
+                                               sorted(ob.values()))
+        ok = set(nb) == set(ob) and sorted(nb.values()) == sorted([
+            'operator.lt', 'placement.exception.'
+            'InvalidInventoryCapacityReservedCanBeTotal']) and sorted(
+                ob.values()) == sorted([
+                    'operator.le',
+                    'placement.exception.InvalidInventoryCapacity'])
+    R.ob('R14.8', '_validate_inventory_capacity:1.26', ok,
+         "from 1.26 a capacity of 0 is accepted ('<' and the "
+         "ReservedCanBeTotal error), before it is not ('<=')", found, func=f)
+    R.count('R14.8', 1, 1)
+
+
 def run(ctx, R):
     r141(ctx, R)
     table = r142(ctx, R)
@@ -764,3 +819,4 @@ def run(ctx, R):
     r145(ctx, R)
     r146(ctx, R)
     r147(ctx, R)
+    r148(ctx, R)
